@@ -560,7 +560,7 @@ func (k *r2client) Instr(s r2state, in ssa.Instruction) (r2state, bool, []r2stat
 		if sc != nil && k.ctx != nil && errResultIndex(sc.Signature) >= 0 && sc.Signature.Results().Len() == 1 && k.ctx.alwaysNonNilErr(sc) {
 			s.nonnil = s.nonnil.with(k.num.id(x))
 		}
-		if sc != nil && sc.Name() == "trimLeft" && len(cc.Args) == 1 {
+		if sc != nil && core.FuncName(sc) == "trimLeft" && len(cc.Args) == 1 {
 			switch s.class(k.num.id(cc.Args[0])) {
 			case ccSame, ccWS:
 				s = s.withClass(k.num.id(x), ccWS)
